@@ -62,17 +62,17 @@ theorem frame_parts (ins p1 : UInt8) (data le : Bytes) (h : data.length < 65536)
 theorem parse_frame (ins p1 : UInt8) (data le : Bytes) (h : data.length < 65536) :
     parseRequest (frame ins p1 data le) =
       (if ins == 0x01 then
-        (if data.length < 32 then .panic else if data.length != 64 then .err swWrongLength else .register (data.take 32) (data.drop 32))
-       else if ins == 0x02 then parseAuthPayload data p1
+        (if data.length != 64 then .err swWrongLength else .register (data.take 32) (data.drop 32))
+       else if ins == 0x02 then
+        (if !(p1 == 0x07 || p1 == 0x03 || p1 == 0x08) then .err swWrongData else parseAuthPayload data p1)
        else if ins == 0x03 then .version
        else .err swInsNotSupported) := by
   obtain ⟨hlen, h0, h1, h2, hbe, hpay⟩ := frame_parts ins p1 data le h
   unfold parseRequest
   rw [h0, h1, h2, hbe, hlen]
-  have a1 : ¬ (7 + data.length + le.length < 6) := by omega
   have a2 : ¬ (7 + data.length + le.length < 7) := by omega
   have a3 : ¬ (7 + data.length + le.length < 7 + data.length) := by omega
-  simp only [a1, a2, a3, if_false, hpay]
+  simp only [a2, a3, if_false, hpay]
   rfl
 
 end PasskeyVerif.C17
